@@ -339,8 +339,17 @@ class _:
 
 @op('sort_axis')
 class _:
-    def run(a, ins, r): return a.sort_axis(axis=r)
-    def coq(r): return '(OSortAxis %s)' % cq_axref(r)
+    def run(a, ins, r, key=None):
+        if key is None: return a.sort_axis(axis=r)
+        if key[0] == 'neg': return a.sort_axis(axis=r, key=lambda x: -x)
+        if key[0] == 'dict': return a.sort_axis(axis=r, key=dict((py_label(l), k) for l, k in key[1]))
+        if key[0] == 'fun': return a.sort_axis(axis=r, key=lambda x: dict((py_label(l), k) for l, k in key[1])[x])
+        raise Unsupported('key')
+    def coq(r, key=None):
+        if key is None: return '(OSortAxis %s)' % cq_axref(r)
+        if key[0] == 'neg': ks = [-l for l in key[1]]
+        else: ks = [k for _, k in key[1]]
+        return '(OSortAxisKey %s %s)' % (cq_axref(r), cq_labs(ks))
 
 @op('broadcast_arrays')
 class _:
@@ -431,12 +440,13 @@ class _:
 
 @op('interp')
 class _:
-    def run(a, ins, news, kind, r, left, right):
+    def run(a, ins, news, kind, r, left, right, issorted=None):
         kw = {}
         if left is not None: kw['left'] = left
         if right is not None: kw['right'] = right
+        if issorted is not None: kw['issorted'] = issorted
         return a.interp_axis(labs_np(news, kind), axis=r, **kw)
-    def coq(news, kind, r, left, right):
+    def coq(news, kind, r, left, right, issorted=None):
         c = lambda v: 'CNaN' if v is None else cq_cell(float(v))
         return '(OInterp %s %s %s %s %s)' % (cq_kind(kind), cq_labs(news), cq_axref(r), c(left), c(right))
 
